@@ -45,7 +45,8 @@ class S:
 
 
 class Machine:
-    def __init__(self, max_nodes, max_links, depth, root_links, req, inserts, seed=0):
+    def __init__(self, max_nodes, max_links, depth, root_links, req, inserts, seed=0, raw_order=True):
+        self.raw_order = raw_order
         self.max_nodes, self.max_links, self.root_links = max_nodes, max_links, root_links
         self.req, self.inserts, self.seed = req, inserts, seed
 
@@ -67,6 +68,9 @@ class Machine:
                 for r in self.req:
                     evs.append(["add_node", p, r])
                 evs.append(["add_const", p])
+            # parent omitted: defaults to the root
+            evs.append(["add_node", None, None])
+            evs.append(["add_const", None])
         if len(ref.links) < self.max_links:
             for a in ends:
                 for b in ends:
@@ -74,6 +78,8 @@ class Machine:
                         for do in OFFS:
                             evs.append(["add_link", a, so, b, do])
                     evs.append(["add_order", a, b])
+                    if self.raw_order:
+                        evs.append(["add_link", a, ORDER, b, ORDER])  # an order link added as a plain link (may repeat)
         for a in ends:
             for b in ends:
                 for so in OFFS:
@@ -106,16 +112,16 @@ class Machine:
             if kind == "add_node":
                 _, p, r = ev
                 op = ops.Custom(f"n{s.serial}")
-                n = h.add_node(op, Node(p), r)
+                n = h.add_node(op, Node(p), r) if p is not None else h.add_node(op, num_outs=r)
                 if n.idx in ref.nodes:
                     return [("add_node:index-live", f"add_node returned live index {n.idx}")]
-                ref.add_node(n.idx, p, op, r)
+                ref.add_node(n.idx, p if p is not None else ref.root, op, r)
             elif kind == "add_const":
                 _, p = ev
-                n = h.add_const(val.TRUE, Node(p))
+                n = h.add_const(val.TRUE, Node(p)) if p is not None else h.add_const(val.TRUE)
                 if n.idx in ref.nodes:
                     return [("add_const:index-live", f"add_const returned live index {n.idx}")]
-                ref.add_node(n.idx, p, h[n].op, None)
+                ref.add_node(n.idx, p if p is not None else ref.root, h[n].op, None)
                 if not isinstance(h[n].op, ops.Const):
                     fails.append(("add_const:op", f"add_const produced {h[n].op!r}"))
             elif kind == "add_link":
